@@ -7,6 +7,16 @@ COMMON_ASSUMPTIONS = [
 ]
 
 PROPS = {
+    "C10": {
+        "kinds": [("C10", 1500, 20000)],
+        "rule": "one constraint system per case from nine classes (boxes with missing sides, random rows, equality pairs, empty by a margin, parallel/scaled rows, zero rows, simplex-like, half-spaces and strips) in dimension 1-4 with a random objective; status, is_feasible, solve_linprog and the Chebyshev-centre program are judged against an exact certified simplex; non-trivial = at least 2 rows; distinct by case text",
+        "assumptions": COMMON_ASSUMPTIONS + ["minilp's floating-point simplex is not modelled; its answers are validated per call against exact certificates with the margins 1e-6 (emptiness / optimal value) and 1e-6 (containment)", "only the default `minilp` backend is built (the `highs` feature needs the HiGHS C++ library)"],
+    },
+    "C15": {
+        "kinds": [("C15", 1500, 20000)],
+        "rule": "one clean-up call per case (remove_tautologies, remove_duplicate_rows, remove_redundant_row_constraints, normalize, remove_zero_rows, remove_rows) on the constraint classes of C10; sub-sequence, exact set equality row by row, tightness of remove_redundant; non-trivial = at least 3 rows; distinct by case text",
+        "assumptions": COMMON_ASSUMPTIONS + ["remove_rows removes the rows the caller names: only the sub-sequence clause applies to it", "normalize: rows are compared as positive multiples up to 1e-12 relative (the quotients are rounded)", "duplicate detection uses the float relation relative_eq: only the direct checks (sub-sequence, set equality) apply"],
+    },
     "C03": {
         "kinds": [("H03", 500, 6000)],
         "rule": "one operation history on AffTree<2> (random constructor incl. partial trees; 1-6 steps weighted towards compose::<true>, infeasible_elimination and tree arithmetic); 12 fixed inputs evaluated after every step, 8 of them on decision hyperplanes; non-trivial = a pruning step with a result of at least 3 nodes or at least 3 steps; distinct by case text",
